@@ -373,7 +373,7 @@ package bcl
 //
 //@ func parse
 //@   ghostinit sd = 0; pend = F0(); bd = 0; uninit = 0; njopen = 0; maxtarget = 0; consumed = 0; lastfin = false; lasterr = false; diags = 0
-//@   ensures [C17] error_iff_diagnostic: (result2 != nil) <==> g.diags > 0
+//@   ensures [C17] error_iff_diagnostic: ((result2 != nil) <==> g.diags > 0) && g.diags >= 0
 //@   ensures result0 != nil
 //@   ensures [C19,C03] complete_when_ok: result2 == nil ==> result0.linePos != nil
 //@   loop 1 invariant invs(p)
